@@ -261,4 +261,37 @@ package closest
 //@   before return#2: assert [c18.error.first] len(recvd(cErr)) == 1 && err == recvd(cErr)[0]
 //@   before return#3: assert [c18.error.first] len(recvd(cErr)) == 1 && err == recvd(cErr)[0]
 //@   before return#5: assert [c18.nil.means.clean] len(recvd(cErr)) == 0 && len(recvd(cResults)) == nQ
+//@   ghost gWriteFailed bool = false
+//@   after call:writeClosest#1: do gWriteFailed = err != nil
 //@   ensures [c18.error.returned] implies(gErrSeen, result != nil)
+//@   ensures [c19.writer.error.returned] implies(gWriteFailed, result != nil)
+
+//@ # closest -n / -d: the same orchestration; the table flag only selects the writer
+//@ spec resultOfN(k int) int uninterpreted
+//@ func ClosestN spawns
+//@   modifies everything
+//@   after assign:cResults#1: assume [env.results] forall(k, 0, nQ, 0 <= resultOfN(k) && resultOfN(k) < nQ && envat(cResults, resultOfN(k)).qidx == k) && forall(j, 0, nQ, 0 <= envat(cResults, j).qidx && envat(cResults, j).qidx < nQ && resultOfN(envat(cResults, j).qidx) == j)
+//@   after assign:cResults#1: assume [env.errors] forallint(k, envat(cErr, k) != nil)
+//@   loop 1:
+//@     invariant len(recvd(cErr)) == 0 && len(recvd(cResults)) == 0 && nQ == len(queries) && len(QResultsArray) == nQ && freshslice(QResultsArray)
+//@   loop 2:
+//@     invariant len(recvd(cErr)) == 0 && len(recvd(cResults)) == 0 && nQ == len(queries) && len(QResultsArray) == nQ && freshslice(QResultsArray)
+//@   loop 3:
+//@     invariant 0 <= i && i <= nQ && len(recvd(cErr)) == 0 && len(recvd(cResults)) == i && nQ == len(queries) && len(QResultsArray) == nQ && freshslice(QResultsArray)
+//@     invariant [c12.slots] forall(j, 0, i, QResultsArray[envat(cResults, j).qidx] == envat(cResults, j))
+//@   before call:writeClosestNTable#1: assert [c12.slots] table && forall(k, 0, nQ, QResultsArray[k] == envat(cResults, resultOfN(k)) && QResultsArray[k].qidx == k)
+//@   before call:writeClosestN#1: assert [c12.slots] !table && forall(k, 0, nQ, QResultsArray[k] == envat(cResults, resultOfN(k)) && QResultsArray[k].qidx == k)
+//@   before call:writeClosestNTable#1: assert [c06.writer.args] arg(1) == measure && arg(2) == out
+//@   before call:writeClosestN#1: assert [c06.writer.args] arg(1) == out
+//@   before call:splitInputN#1: assert [c06.options] arg(0) == queries && arg(1) == catchmentSize && (arg(2) == maxdist || (isnan(arg(2)) && isnan(maxdist))) && arg(3) == measure
+//@   ghost gErrSeen bool = false
+//@   ghost gWriteFailed bool = false
+//@   before return#2: do gErrSeen = true
+//@   before return#3: do gErrSeen = true
+//@   before return#2: assert [c18.error.first] len(recvd(cErr)) == 1 && err == recvd(cErr)[0]
+//@   before return#3: assert [c18.error.first] len(recvd(cErr)) == 1 && err == recvd(cErr)[0]
+//@   after call:writeClosestNTable#1: do gWriteFailed = err != nil
+//@   after call:writeClosestN#1: do gWriteFailed = err != nil
+//@   before return#5: assert [c18.nil.means.clean] len(recvd(cErr)) == 0 && len(recvd(cResults)) == nQ
+//@   ensures [c18.error.returned] implies(gErrSeen, result != nil)
+//@   ensures [c19.writer.error.returned] implies(gWriteFailed, result != nil)
